@@ -26,7 +26,7 @@
 From Coq Require Import List ZArith NArith String Bool.
 From SCC Require Import Base.Sexp Lang.SynUtil Lang.FunSyn Lang.CoreSyn Model.RunBase.
 From SCC Require Import Sem.FsCheck Sem.CoreCheck Model.FocusCheck Model.Fun2Core.
-From SCC Require Lang.AxSyn Sem.AxCheck Model.LinCheck Model.Capacity Model.RV.
+From SCC Require Lang.AxSyn Sem.AxCheck Model.LinCheck Model.Capacity Model.RV Model.WtDefs.
 Import ListNotations.
 Open Scope string_scope.
 
@@ -82,7 +82,10 @@ Definition chk_focused (f : fsprog) : option string :=
 Definition chk_shrunk (a : AxSyn.prog) : option string :=
   match AxCheck.check_prog a with
   | Some (cls, m) => Some (cls ++ ": " ++ m)
-  | None => fensure (LinCheck.prog_ok a) "wt_ax accepts but LinCheck.prog_ok rejects (binders not globally unique or above max_id)"
+  | None =>
+      fensure (WtDefs.pre_linear_prog a) "an explicit substitution or an annotated closure environment before linearization"
+      ?> fensure (WtDefs.binders_ok a) "binders of a definition not globally distinct or above max_id"
+      ?> fensure (LinCheck.prog_ok a) "wt_ax, pre_linear and binders_ok hold but LinCheck.prog_ok rejects (contradicts theorem wt_ax_prog_ok)"
   end.
 Definition chk_lin (a : AxSyn.prog) : option string :=
   fensure (LinCheck.lin_check_prog a) ("lin_check fails in definition " ++ LinCheck.first_bad_def a).
@@ -116,12 +119,21 @@ Definition find_stage (name : string) (l : list sexp) : sexp :=
 Definition size_ax (p : AxSyn.prog) : N :=
   fold_left (fun acc d => acc + 1 + N.of_nat (List.length (LinCheck.binders (AxSyn.dbody d))))%N (AxSyn.pdefs p) 0%N.
 
+(* the witness of theorem C12_fun2core_typing_refuted is the real checked form of its corpus file *)
+Fixpoint ends_with (suffix s : string) : bool :=
+  String.eqb suffix s || match s with EmptyString => false | String _ r => ends_with suffix r end.
+Definition witness_ok (name : string) (p : fcprog) : bool :=
+  if ends_with "corpus/fun/c12_capture_illtyped.sc" name then fcprog_eqb p WtDefs.capture_typing_witness else true.
+
 Definition wtstages_case (i r : sexp) : verdict :=
   match i, r with
   | L [Q name; p], L stages =>
       match g_fcprog p with
       | None => VBad ("checked program unreadable: " ++ show_bad (first_bad readable_fun p))
       | Some fp =>
+          if negb (witness_ok name fp)
+          then VBad ("the witness value in Model/WtDefs.v differs from the checked program of " ++ name)
+          else
           let core := read_stage g_cprog readable_core (find_stage "core" stages) in
           let uniq := read_stage g_cprog readable_core (find_stage "uniquified" stages) in
           let foc := read_stage g_fsprog readable_fs (find_stage "focused" stages) in
